@@ -1,6 +1,12 @@
 import Driver.Util
+import Driver.Inhibit
+import Driver.Ingest
+import Driver.Workers
 -- engines of work area Alerts: import your Driver.<Engine> modules above and list them here
 namespace Driver.Reg.Alerts
 def engines : List (String × IO UInt32) := [
+  ("inhibit", Driver.runEngine Driver.Inhibit.engine),
+  ("ingest", Driver.runEngine Driver.Ingest.engine),
+  ("workers", Driver.runEngine Driver.Workers.engine)
 ]
 end Driver.Reg.Alerts
